@@ -112,7 +112,7 @@ func genC05Exec(r *wk.Rand, runID string, v1 bool) c05Exec {
 	e := c05Exec{spec: rig.ExecSpec{RunID: runID, StepID: step, NoSigCh: true}}
 	var input any = in
 	if !v1 && r.Chance(25) {
-		switch r.Intn(11) {
+		switch r.Intn(12) {
 		case 9:
 			// a rejected value that is long and not ASCII: the error text that quotes it runs to several KiB
 			in["mode"] = strings.Repeat(wk.Pick(r, []string{"é", "ü", "名", "ж"}), 1500+r.Intn(2000)) + "x"
@@ -147,6 +147,9 @@ func genC05Exec(r *wk.Rand, runID string, v1 bool) c05Exec {
 		case 8:
 			e.spec.StepID = "no-such-step"
 			e.invalid = "unknown step"
+		case 11:
+			e.spec.StepID = ""
+			e.invalid = "empty step ID"
 		}
 	}
 	e.spec.Input = input
@@ -218,7 +221,7 @@ func c05Burst(r *wk.Rand, tag string) ([][]rig.ExecSpec, map[string]c05Exec) {
 		in := map[string]any{"nonce": runID, "n": int64(i)}
 		switch i % 6 {
 		case 0:
-			e.spec.StepID = "no-such-step"
+			e.spec.StepID = wk.Pick(r, []string{"no-such-step", ""})
 			e.invalid = "unknown step"
 		case 1:
 			in["n"] = "not a number"
